@@ -16,8 +16,10 @@
    [conforms S b]: dynamic blocks are used only for block types the schema of their level
    asks for, with as many labels; block types of a schema are distinct and none is called
    "dynamic"; bodies read with JustAttributes contain no dynamic block. *)
-From HclV Require Import Base.Prelude Cty.Values Cty.Convert Cty.Ops Eval.Impl
-  Dyn.Expand Dyn.Unroll Dyn.CtxEquivProofs Dyn.ExpandProofs Dyn.ExpandFactsProofs.
+From HclV Require Import Dec.Spec Dec.Decode.
+From HclV Require Import Base.Prelude Cty.Values Cty.Convert Cty.Ops Eval.Impl.
+From HclV Require Import Dyn.Expand Dyn.Unroll Dyn.CtxEquivProofs Dyn.ExpandProofs Dyn.ExpandFactsProofs
+  Dyn.DecodeBridge.
 Open Scope Z_scope.
 
 (* ---- the README's equation --------------------------------------------------------------------- *)
@@ -35,8 +37,8 @@ Print Assumptions C18_expand_equals_unroll.
 (* ... hence for decoding, given that hcldec reads a body only through the content it
    exposes under the specification's schemata (premise [Hdec], the fact owned by C08). *)
 Theorem C18_expand_decode_equals_unroll_decode :
-  forall (spec : Type) (schema_of : spec -> sch)
-         (decode : spec -> hbody -> ctx -> val * list diag)
+  forall (spec : Type) (schema_of : spec -> sch) (result : Type)
+         (decode : spec -> hbody -> ctx -> result)
          (Hdec : forall s b1 b2 rho,
                    content_of (schema_of s) rho b1 = content_of (schema_of s) rho b2 ->
                    decode s b1 rho = decode s b2 rho)
@@ -46,6 +48,39 @@ Theorem C18_expand_decode_equals_unroll_decode :
     decode s (inl (Expand b c)) rho = decode s (inr (unroll b c)) rho.
 Proof. exact expand_decode_equals_unroll_decode. Qed.
 Print Assumptions C18_expand_decode_equals_unroll_decode.
+
+(* ... and with the premise discharged for the hcldec model (Dec/Spec.v, Dec/Decode.v):
+   [sch_of_spec s] are the schemata hcldec applies level by level for the spec s
+   (ImpliedSchema and the nested specs' schemata; JustAttributes under BlockAttrsSpec),
+   [decode_hcldec s b rho] is Dec.decode run on the abstract body made of everything
+   observed of b under these schemata in the decoding context rho (attributes evaluated,
+   blocks with labels, Unknown(), BodyValueMarks()), [decode_hcldec_errs] adds the
+   error-ness of the body's own Content calls.  Value, decoder diagnostics and error-ness
+   agree for every specification. *)
+Theorem C18_expand_decode_equals_unroll_decode_hcldec :
+  forall (s : spec) (b : dbody) (c rho : ctx),
+    clean (unroll b c) = true ->
+    conforms (sch_of_spec s) b = true ->
+    decode_hcldec s (inl (Expand b c)) rho = decode_hcldec s (inr (unroll b c)) rho
+    /\ decode_hcldec_errs s (inl (Expand b c)) rho = decode_hcldec_errs s (inr (unroll b c)) rho.
+Proof. exact expand_decode_equals_unroll_decode_hcldec. Qed.
+Print Assumptions C18_expand_decode_equals_unroll_decode_hcldec.
+
+(* the instance of the premise: this decoder reads a body only through its content *)
+Theorem C18_decode_hcldec_respects_content :
+  forall s b1 b2 rho,
+    content_of (sch_of_spec s) rho b1 = content_of (sch_of_spec s) rho b2 ->
+    decode_hcldec_all s b1 rho = decode_hcldec_all s b2 rho.
+Proof. exact decode_hcldec_respects_content. Qed.
+Print Assumptions C18_decode_hcldec_respects_content.
+
+(* the schemata are those of the hcldec model: attributes exactly, block headers as sets *)
+Theorem C18_sch_of_spec_is_implied_schema :
+  forall s,
+    sch_of_spec s = Sch (sch_attrs (implied_schema s)) (block_tree s)
+    /\ (forall h, In h (map hdrZ (sch_blocks (implied_schema s))) <-> In h (headers (block_tree s))).
+Proof. intro s. split; [reflexivity|exact (block_tree_headers s)]. Qed.
+Print Assumptions C18_sch_of_spec_is_implied_schema.
 
 (* The lemma everything rests on: expression evaluation depends on the context chain
    only through the variable and function searches. *)
@@ -242,3 +277,35 @@ Example C18_example_observation :
      (ex_a, [], ONode false [(ex_p, (VStr [107;50], []))] [] [] false false)]
     [] false false.
 Proof. vm_compute. reflexivity. Qed.
+
+(* the same body decoded by the hcldec model: ObjectSpec{ a = BlockListSpec "a" {
+   b = BlockMapSpec "b" ["key"] { p = AttrSpec p string required }, p = AttrSpec p string required } } *)
+Definition ex_leaf : spec := SObject [(ex_p, Spec.SAttr ex_p TStr true)].
+Definition ex_spec : spec :=
+  SObject [(ex_a, SBlockList ex_a (SObject [(ex_b, SBlockMap ex_b [[107;101;121]] ex_leaf);
+                                              (ex_p, Spec.SAttr ex_p TStr true)]) 0 0)].
+
+Example C18_example_hcldec_hypotheses :
+  sch_of_spec ex_spec = ex_sch /\ conforms (sch_of_spec ex_spec) ex_body = true.
+Proof. split; vm_compute; reflexivity. Qed.
+
+Example C18_example_hcldec_decode :
+  decode_hcldec ex_spec (inl (Expand ex_body ex_ctx)) [] =
+    (VObj [(ex_a, VList (TObj [(ex_b, TMap (TObj [(ex_p, TStr)])); (ex_p, TStr)])
+              [VObj [(ex_b, VMap (TObj [(ex_p, TStr)]) []); (ex_p, VStr [115])];
+               VObj [(ex_b, VMap (TObj [(ex_p, TStr)])
+                              [([107;49;45;48], VObj [(ex_p, VStr [120])]);
+                               ([107;49;45;49], VObj [(ex_p, VStr [121])])]);
+                     (ex_p, VStr [107;49])];
+               VObj [(ex_b, VMap (TObj [(ex_p, TStr)]) []); (ex_p, VStr [107;50])]])], [])
+  /\ decode_hcldec ex_spec (inr (unroll ex_body ex_ctx)) [] = decode_hcldec ex_spec (inl (Expand ex_body ex_ctx)) []
+  /\ decode_hcldec_errs ex_spec (inl (Expand ex_body ex_ctx)) [] = false.
+Proof. repeat split; vm_compute; reflexivity. Qed.
+
+(* an error of a nested body's own Content call (an argument the schema does not name)
+   is an error of the decode, for the expanded and for the written-out body alike *)
+Example C18_example_hcldec_nested_error :
+  let b := [DBlock ex_a [] [DAttr ex_p (ELit (VStr [115])); DAttr [122] (ELit (VStr [115]))]] in
+  decode_hcldec_errs ex_spec (inl (Expand b ex_ctx)) [] = true
+  /\ decode_hcldec_errs ex_spec (inr (unroll b ex_ctx)) [] = true.
+Proof. split; vm_compute; reflexivity. Qed.
